@@ -938,3 +938,64 @@ Theorem c04_bcf_record_framing :
                  GRel r' (o + 4 + len b) /\ GJC r' (o + 4 + len b).
 Proof. exact NV.Index.BcfByteQueryProofs.gen_read_record. Qed.
 Print Assumptions c04_bcf_record_framing.
+
+(* ---- tenth wave (c): the indexing / filtering KEY of a BCF record read off its SITE BYTES
+   (NV.Index.BcfSiteKey, kind `bcfk`): Record::reference_sequence_id (i32 at 0..4 through
+   usize::try_from), Record::variant_start (C10's lz_pos; the indexer's "missing position"),
+   Record::rlen (i32 at 8..12 through usize::try_from) and Record::end -- what bcf/fs/index.rs and the
+   query filter read from the buffer bcf_read_record has filled.  First step of composing the bcfb
+   framing with the format-level c04_vcf_query_equals_scan (variant_end over INFO END / SVLEN on the
+   bytes is not yet modelled here). *)
+From Coq Require ZArith.
+From NV Require Index.BcfSiteKey Bcf.Ints Bcf.Record Bcf.Lazy Bcf.LazySiteProofs Bcf.Typed Bcf.StringMap.
+
+(* whenever C10's eager read_site (dec_head) accepts the site block: the record reader's validation
+   accepts it too, and the reference id, start, rlen and end read off the bytes are those of the
+   decoded head (the reference NAME of the head is contigs[reference id]) *)
+Theorem c04_bcf_site_key_agrees_with_head :
+  forall strings contigs sb h info_bytes,
+    NV.Bcf.LazySiteProofs.byte_list sb ->
+    NV.Bcf.Record.dec_head strings contigs sb = Some (h, info_bytes) ->
+    exists c l,
+      NV.Index.BcfSiteKey.bcf_site_rid sb = NV.Bcf.Typed.ROk c /\ Coq.ZArith.BinInt.Z.le Z0 c /\
+      NV.Bcf.StringMap.get_index contigs (NV.Bcf.Ints.znat (length (NV.Bcf.StringMap.entries contigs)) c)
+        = Some (NV.Bcf.Record.h_chrom h) /\
+      NV.Bcf.Lazy.lz_pos sb = NV.Bcf.Typed.ROk (NV.Bcf.Record.h_pos h) /\
+      NV.Index.BcfSiteKey.bcf_site_start sb
+        = match NV.Bcf.Record.h_pos h with Some p => NV.Bcf.Typed.ROk p | None => NV.Bcf.Typed.RErr end /\
+      NV.Index.BcfSiteKey.bcf_site_rlen sb = NV.Bcf.Typed.ROk l /\ Coq.ZArith.BinInt.Z.le Z0 l /\
+      NV.Index.BcfSiteKey.bcf_site_end sb
+        = (if Coq.ZArith.BinInt.Z.eqb l Z0 then NV.Bcf.Typed.RErr
+           else NV.Bcf.Typed.ROk (Coq.ZArith.BinInt.Z.add (match NV.Bcf.Record.h_pos h with Some p => p | None => Zpos xH end)
+                                        (Coq.ZArith.BinInt.Z.sub l (Zpos xH)))) /\
+      NV.Index.BcfByteQuery.bcf_val sb = true.
+Proof. exact NV.Index.BcfSiteKey.site_key_agrees_with_head. Qed.
+Print Assumptions c04_bcf_site_key_agrees_with_head.
+
+(* behind the record reader's Fields::index (bcf_val, the validation step of bcf_read_record) none of
+   the key accessors can slice out of the site buffer: each returns a value or InvalidData *)
+Theorem c04_bcf_site_key_total :
+  forall sb, NV.Index.BcfByteQuery.bcf_val sb = true ->
+    NV.Index.BcfSiteKey.bcf_site_rid sb <> NV.Bcf.Typed.RPanic /\
+    NV.Bcf.Lazy.lz_pos sb <> NV.Bcf.Typed.RPanic /\
+    NV.Index.BcfSiteKey.bcf_site_start sb <> NV.Bcf.Typed.RPanic /\
+    NV.Index.BcfSiteKey.bcf_site_rlen sb <> NV.Bcf.Typed.RPanic /\
+    NV.Index.BcfSiteKey.bcf_site_end sb <> NV.Bcf.Typed.RPanic.
+Proof. exact NV.Index.BcfSiteKey.site_key_total. Qed.
+Print Assumptions c04_bcf_site_key_total.
+
+(* Record::reference_sequence_name is contigs[Record::reference_sequence_id] on every buffer *)
+Theorem c04_bcf_site_chrom_via_rid :
+  forall contigs sb,
+    NV.Bcf.Lazy.lz_chrom contigs sb =
+    NV.Bcf.Typed.rbind (NV.Index.BcfSiteKey.bcf_site_rid sb) (fun c =>
+      match NV.Bcf.StringMap.get_index contigs (NV.Bcf.Ints.znat (length (NV.Bcf.StringMap.entries contigs)) c) with
+      | Some n => NV.Bcf.Typed.ROk n | None => NV.Bcf.Typed.RErr end).
+Proof. exact NV.Index.BcfSiteKey.lz_chrom_via_rid. Qed.
+Print Assumptions c04_bcf_site_chrom_via_rid.
+
+(* non-vacuity: the site of c04_bcf_byte_example (reference 0, POS 10, rlen 1) *)
+Example c04_bcf_site_key_example :
+  NV.Index.BcfSiteKey.bcf_site_key c04_bcf_site
+  = Some (NV.Bcf.Typed.ROk Z0, NV.Bcf.Typed.ROk (Some (Zpos (xO (xI (xO xH))))), NV.Bcf.Typed.ROk (Zpos (xO (xI (xO xH))))).
+Proof. vm_compute. reflexivity. Qed.
